@@ -101,6 +101,10 @@ pub fn stdfs_entries(path: &PathBuf) -> (r: RvResult<Entries>)
         r is Ok ==> r->Ok_0.root.std_path() == Some(path.comps()) && r->Ok_0.iter_from.is_stdfs(),                  //@ clause entries.stdfs_root_is_the_entry_of_the_argument [C08]
 //@ body
 
+impl NameStr {
+    // String::starts_with on a child name (unspecified: names are opaque here)
+    #[verifier::external_body] pub fn starts_with<P>(&self, p: P) -> (b: bool) { unimplemented!() }
+}
 // ---- the Memfs lister (src/sys/fs/memfs/entry.rs): the children of one directory of the snapshot, each exactly once
 // HashMap<PathBuf, MemfsEntry> behind an Arc as a finite map keyed by the absolute clean path (ASSUMED[hashmap])
 #[verifier::external_body] pub struct MemfsEntries { x: u8 }
